@@ -68,6 +68,18 @@ def step (_ : Unit) (line : String) : Unit × String :=
           | none => "ok"
       ((), r ++ " ||| " ++ v)
     | _, _ => ((), "bad-op")
+  | ["loadkey", e, kh, nh] =>
+    match parsePairs e, hexDec kh, hexDec nh with
+    | some env, some key, some num =>
+      -- the whole file text is rewritten before it is parsed: a variable in a mapping key or in a
+      -- numeric field is replaced like anywhere else (one process, under the expanded name)
+      let k := String.ofList (loadText (mapping env) key.toList)
+      let n := String.ofList (loadText (mapping env) num.toList)
+      let m := match n.toNat? with
+        | some v => "names=" ++ showHexList [k] ++ " replicas=" ++ toString v
+        | none => "err"
+      ((), m ++ " ||| " ++ (if impl == m then "ok" else "bad:a variable in a process name or a numeric field is not replaced by its value (or leaves a second entry): want " ++ m))
+    | _, _, _ => ((), "bad-op")
   | ["dotenv", ih, fh, t] =>
     match parsePairs ih, parsePairs fh, hexDec t with
     | some inh, some file, some txt =>
